@@ -195,172 +195,7 @@ def run(ctx: Ctx):
     M = printers.model(ctx)
     ctx.assume("numerical equality to rounding over all programs x inputs is NOT decided; sympy's own inherited printers are trusted as recorded in the vetted table")
 
-    # ---- R01.a operator table ------------------------------------------------------------------
-    ctx.rule("R01.a", "operator table: for each operator literal the grammar can produce, binary_op / unary_op return the term the language defines (a-b = a+(-1)b, a/b = a*b**-1, unary minus = (-1)a) or raise", floor=9)
-    add_ops, mul_ops, un_ops = G.rule_literals("_add_op"), G.rule_literals("_mul_op"), G.rule_literals("_unary_op")
-    pow_ops = [l for l in G.rule_literals("power")]
-    op_table(ctx, "R01.a", "binary_op", BIN_REF, add_ops + mul_ops + pow_ops)
-    op_table(ctx, "R01.a", "unary_op", UN_REF, un_ops)
-    util.same_as_reference(ctx, "R01.a", "expressions.py", "relational_to_piecewise", REF_REL2PW, "indicator", "a relational used as a number is Piecewise((1, rel), (0, True))", "relational_to_piecewise no longer maps a relational operand to Piecewise((1, rel), (0, True)) and everything else to itself")
-
-    # ---- R01.b fold direction ----------------------------------------------------------------------
-    ctx.rule("R01.b", "tree folding: expression/term fold left-to-right with the accumulator as first operand; factor applies the sign to its operand; power is base ** exponent", floor=4)
-    from sa import av as _avb
-
-    e2 = sm.func("expressions.py", "build_expression.expr2symbols")
-    cur_v = util.value_of(ctx, e2)
-    ref_v = util.reference_value(ctx, "expressions.py", "build_expression.expr2symbols", REF_EXPR2SYMBOLS)
-    kt = ("sym", f"{e2.params[0]}.data")
-    cur_cases, ref_cases = util.dispatch_cases(cur_v, kt), util.dispatch_cases(ref_v, kt)
-
-    def case_rule(rule_, kind, key_, ok_msg, fail_msg):
-        c_, r_ = cur_cases.get(kind, cur_cases[None]), ref_cases[kind]
-        vd_ = util.verdict(c_, [r_])
-        if vd_ == "unknown":
-            ctx.undecided(rule_, e2.key(key_), f"what expr2symbols builds for `{kind}` nodes is not understood ({(_avb.find_all(c_, 'unk') or [('', '?')])[0][1]})", e2.where())
-        else:
-            ctx.check(vd_ == "ok", rule_, e2.key(key_), ok_msg, f"{fail_msg} (it builds {_avb.show(c_)[:200]})", e2.where())
-        return c_
-
-    for kind_ in ("expression", "term"):
-        case_rule("R01.b", kind_, "fold" if kind_ == "expression" else "fold-term", "acc = binary_op(op_i, acc, operand_{i+1}) for i = 1, 3, 5, ...", f"expr2symbols: `{kind_}` children are not folded left-to-right as binary_op(children[i], accumulator, children[i+1]) (associativity or operand order of - and / would change)")
-    case_rule("R01.b", "factor", "factor", "unary_op(sign, operand)", "expr2symbols: factor is not unary_op(children[0], expr2symbols(children[1]))")
-    case_rule("R01.b", "power", "power", "binary_op('**', base, exponent)", "expr2symbols: power is not binary_op('**', children[0], children[1]) (base and exponent swapped?)")
-    other = cur_cases[None]
-    ctx.check(other == ("raise", "InvalidTreeError") or (_avb.has_unk(other) and False), "R01.b", e2.key("unknown-tree"), "unknown tree kinds raise InvalidTreeError", f"expr2symbols does not raise InvalidTreeError for unknown tree kinds (it gives {_avb.show(other)[:80]})", e2.where())
-
-    # ---- R01.c precedence ladder -------------------------------------------------------------------
-    ctx.rule("R01.c", "precedence ladder of ode.lark: additive below multiplicative below unary below **, ** binds its signed right operand (right associative), parentheses restart at expression; leaf rules are not inlined", floor=14)
-    for name, want in LADDER.items():
-        got = G.shape(name)
-        ctx.check(got == want, "R01.c", f"src/gotranx/ode.lark::{name}", got, f"grammar rule `{name}` is `{got}`; the vetted precedence ladder has `{want}` (precedence / associativity / tree shape seen by build_expression changed)", "src/gotranx/ode.lark")
-
-    TERMS = {
-        "SCIENTIFIC_NUMBER": G.terms.get("SCIENTIFIC_NUMBER", {}).get("shape", ""),
-        "SIGN": '("+" | "-")',
-        "PI": '"pi"',
-    }
-    sn = TERMS["SCIENTIFIC_NUMBER"]
-    number = G.terms.get("NUMBER", {}).get("shape", "")
-    ok_sn = bool(number) and sn == f'{number} (("E" | "e") (("+" | "-"))? {number})?'
-    ctx.check(ok_sn, "R01.c", "src/gotranx/ode.lark::SCIENTIFIC_NUMBER", "NUMBER ((E|e) SIGN? NUMBER)?  (unsigned: a leading sign is an operator)", f"terminal SCIENTIFIC_NUMBER is `{sn[:120]}`; it must be an unsigned NUMBER with an optional exponent - a sign glued into the literal changes the meaning of -2**2 and x**-2**2", "src/gotranx/ode.lark")
-    for tn in ("SIGN", "PI"):
-        got = G.terms.get(tn, {}).get("shape")
-        ctx.check(got == TERMS[tn], "R01.c", f"src/gotranx/ode.lark::{tn}", f"{tn}: {got}", f"terminal {tn} is `{got}`, vetted `{TERMS[tn]}`", "src/gotranx/ode.lark")
-
-    # ---- R01.d function vocabulary ----------------------------------------------------------------------
-    ctx.rule("R01.d", "function vocabulary: every funcname / logicalfuncname of the grammar is bound to the sympy object with the documented meaning; Conditional / ContinuousConditional bind their children to cond, true, false (, sigma)", floor=26)
-    sympy = importlib.import_module("sympy")
-    funcs = G.literals_of("funcname")
-    func_v = case_rule("R01.d", "func", "func-apply", "getattr(sp, name)(*all arguments), abs -> Abs", "expr2symbols: a function call is not built as getattr(sp, funcname)(*[every argument]) with abs mapped to Abs")
-    abs_map = "'Abs' if" in _avb.show(func_v) and "== 'abs'" in _avb.show(func_v)
-    for lit in funcs:
-        key = f"src/gotranx/ode.lark::funcname::{lit}"
-        if lit not in FUNC_MEANING:
-            ctx.fail("R01.d", key, f"grammar function `{lit}` has no vetted meaning", "src/gotranx/ode.lark")
-            continue
-        attr, obj = FUNC_MEANING[lit]
-        looked = "Abs" if (lit == "abs" and abs_map) else lit
-        ok = looked == attr and getattr(sympy, looked, None) is getattr(sympy, obj)
-        ctx.check(ok, "R01.d", key, f"{lit} -> sympy.{obj}", f"grammar function `{lit}` is looked up as sympy.{looked}, which is not sympy.{obj}", "src/gotranx/ode.lark")
-    missing = [k for k in FUNC_MEANING if k not in funcs]
-    ctx.check(not missing, "R01.d", "src/gotranx/ode.lark::funcname::complete", "all documented functions are in the grammar", f"documented functions missing from the grammar: {missing}", "src/gotranx/ode.lark")
-    logical = G.literals_of("logicalfuncname")
-    for lit in logical:
-        key = f"src/gotranx/ode.lark::logicalfuncname::{lit}"
-        if lit in ("Conditional", "ContinuousConditional"):
-            continue
-        want = LOGICAL_MEANING.get(lit)
-        ok = want is not None and getattr(sympy, lit, None) is getattr(sympy, want)
-        ctx.check(ok, "R01.d", key, f"{lit} -> sympy.{want}", f"grammar function `{lit}` resolves to sympy.{lit}, which is not sympy.{want}", "src/gotranx/ode.lark")
-    ctx.check(set(LOGICAL_MEANING) | {"Conditional", "ContinuousConditional"} == set(logical), "R01.d", "src/gotranx/ode.lark::logicalfuncname::complete", "logical vocabulary as documented", f"logical function names {sorted(logical)} differ from the documented set", "src/gotranx/ode.lark")
-    lk = ("sub", ("sym", f"{e2.params[0]}.children"), _avb.C(0))
-    cur_l = util.dispatch_cases(cur_cases.get("logicalfunc", cur_cases[None]), lk)
-    ref_l = util.dispatch_cases(ref_cases["logicalfunc"], lk)
-    for nm_, key_, okm_, badm_ in (
-        (None, "logical-apply", "getattr(sp, name)(*all arguments)", "expr2symbols: a logical function is not built as getattr(sp, name)(*[every argument]) (operands of And/Or could be dropped)"),
-        ("Conditional", "Conditional", "Conditional(cond, true, false) <- children 1, 2, 3", "expr2symbols: Conditional does not bind children 1, 2, 3 to cond, true_value, false_value"),
-        ("ContinuousConditional", "ContinuousConditional", "ContinuousConditional(rel(arg1, arg2), true, false, sigma) <- children 1..4", "expr2symbols: ContinuousConditional does not bind rel(arg1, arg2), children 2, 3, 4 to cond, true_value, false_value, sigma"),
-    ):
-        c_, r_ = cur_l.get(nm_, cur_l[None]), ref_l.get(nm_, ref_l[None])
-        vd_ = util.verdict(c_, [r_])
-        if vd_ == "unknown":
-            ctx.undecided("R01.d", e2.key(key_), f"what expr2symbols builds for {nm_ or 'other logical functions'} is not understood", e2.where())
-        else:
-            ctx.check(vd_ == "ok", "R01.d", e2.key(key_), okm_, f"{badm_} (it builds {_avb.show(c_)[:200]})", e2.where())
-    pi_v = cur_cases.get("constant", cur_cases[None])
-    vd_ = util.verdict(pi_v, [ref_cases["constant"]])
-    if vd_ == "unknown":
-        ctx.undecided("R01.d", e2.key("pi"), "what expr2symbols builds for constants is not understood", e2.where())
-    else:
-        ctx.check(vd_ == "ok" and G.terms["PI"]["shape"] == '"pi"', "R01.d", e2.key("pi"), "`pi` (exactly) is the constant", f"the constant pi is recognised as {G.terms['PI']['shape']} / built as {_avb.show(pi_v)[:100]}: identifiers such as Pi or PI could become the constant, or pi another value", e2.where())
-    case_rule("R01.d", "scientific", "number", "numbers are sympified literally", "expr2symbols: a number literal is not sp.sympify(token)")
-    case_rule("R01.d", "variable", "variable", "a name is looked up in the model's symbol table", "expr2symbols: a variable is not symbols_[its name]")
-
-    # ---- R01.e conditional builders --------------------------------------------------------------------
-    ctx.rule("R01.e", "Conditional -> Piecewise((true, cond), (false, True)); ContinuousConditional -> sigmoid blend with the weights on the right sides", floor=4)
-    from sa import av as _ave
-
-    from . import util as _ue
-    from .c03 import _branches as _br
-
-    cf = sm.func("sympytools.py", "Conditional")
-    cv = _ue.value_of(ctx, cf)
-    if _ave.has_unk(cv):
-        ctx.undecided("R01.e", cf.key("piecewise"), f"what Conditional returns is not understood ({_ave.find_all(cv, 'unk')[0][1]})", cf.where())
-    else:
-        pc, tv, fv = cf.params[0], cf.params[1], cf.params[2]
-        condv = {("sym", pc), ("call", "sympy.sympify", (("sym", pc),), ())}
-        pws = [c for c in _ave.find_all(cv, "call") if c[1] == "sympy.Piecewise"]
-        okpw = False
-        got = None
-        if pws:
-            c = pws[0]
-            got = _ave.show(c)
-            pairs = c[2]
-            okpw = len(pairs) == 2 and pairs[0][0] == "list" and pairs[1][0] == "list" and len(pairs[0][1]) == 2 and len(pairs[1][1]) == 2 and pairs[0][1][0] == ("sym", tv) and pairs[0][1][1] in condv and pairs[1][1][0] == ("sym", fv) and pairs[1][1][1] in (("sym", "sympy.true"), _ave.C(True))
-        ctx.check(okpw, "R01.e", cf.key("piecewise"), "Piecewise((true_value, cond), (false_value, True))", f"sympytools.Conditional returns {got}, not Piecewise((true_value, cond), (false_value, True))", cf.where())
-        leaves = _br(cv)
-        direct = [(c, x) for c, x in leaves if x in (("sym", tv), ("sym", fv))]
-        oks = len(direct) == 2
-        for c, x in direct:
-            is_bool = any("BooleanFalse" in _ave.show(k) and "BooleanTrue" in _ave.show(k) and k[0] != "not" for k in c)
-            sel = [k for k in c if k in condv or (k[0] == "not" and k[1] in condv)]
-            oks = oks and is_bool and len(sel) == 1 and ((sel[0][0] != "not") == (x == ("sym", tv)))
-        ctx.check(oks or not direct, "R01.e", cf.key("evaluated-condition"), "an already evaluated condition selects its branch", "sympytools.Conditional: the shortcut for an evaluated boolean condition is not `true_value if cond else false_value`", cf.where())
-    ccf = sm.func("sympytools.py", "ContinuousConditional")
-    ccv = _ue.value_of(ctx, ccf)
-    H_ref = te.parse_term("1 / (1 + exp((LHS - RHS) / sigma))", funcs={"exp": lambda e, c: ("fn", "exp", (e.ev(c.args[0]),))})
-    if _ave.has_unk(ccv):
-        ctx.undecided("R01.e", ccf.key("weights"), f"what ContinuousConditional returns is not understood ({_ave.find_all(ccv, 'unk')[0][1]})", ccf.where())
-    else:
-        pc = ccf.params[0]
-        repl = {f"sympy.sympify({pc})": pc, f"{pc}.args[0]": "LHS", f"{pc}.args[1]": "RHS", f"{pc}.lhs": "LHS", f"{pc}.rhs": "RHS"}
-        atoms_ = None
-        want_gt = te.parse_term("true_value * (1 - H) + false_value * H", env={"H": H_ref})
-        want_lt = te.parse_term("true_value * H + false_value * (1 - H)", env={"H": H_ref})
-        leaves = [(c, x) for c, x in _br(ccv) if x[0] not in ("raise",) and x != _ave.NONE]
-        okw = len(leaves) == 2
-        seen_gt = seen_lt = False
-        okh = True
-        for c, x in leaves:
-            ctxt = " and ".join(_ave.show(k) for k in c).replace(f"sympy.sympify({pc})", pc)
-            try:
-                term = _ue.av_term(x, atoms=atoms_, repl=repl)
-            except Exception:
-                okw = False
-                continue
-            is_gt = f"('>' in {pc}.rel_op)" in ctxt and f"not ('>' in {pc}.rel_op)" not in ctxt
-            if term == (want_gt if is_gt else want_lt):
-                seen_gt, seen_lt = seen_gt or is_gt, seen_lt or not is_gt
-            else:
-                okw = False
-                if term == (want_lt if is_gt else want_gt):
-                    okh = True  # the sigmoid is right, the sides are swapped
-                else:
-                    okh = False
-        ctx.check(okh, "R01.e", ccf.key("H"), "H = 1 / (1 + exp((lhs - rhs) / sigma))", "ContinuousConditional: the blend is not built from H = 1 / (1 + exp((lhs - rhs) / sigma))", ccf.where())
-        ctx.check(okw and seen_gt and seen_lt, "R01.e", ccf.key("weights"), "'>' relations: true*(1-H) + false*H; otherwise true*H + false*(1-H)", "ContinuousConditional: the branch test is not `'>' in cond.rel_op` or the sigmoid weights are on the wrong sides (the blend tends to the wrong value on each side of the threshold)", ccf.where())
+    front_end(ctx, {k: "R01." + k for k in "abcde"})
 
     # ---- R01.f definition before use ----------------------------------------------------------------------
     ctx.rule("R01.f", "definition before use: dependencies are complete, the sorter receives (name, *its dependencies), rhs prints x.symbol = x.expr before values[k] = x.symbol, the template orders unpacking, allocation, body, return", floor=5)
@@ -722,3 +557,183 @@ def time_aliases(ctx: Ctx, rule: str):
         ctx.undecided(rule, pa.key("formal-t"), "the formal argument table is not understood", pa.where())
     else:
         ctx.check(entg.get("t") == _avg.C("t"), rule, pa.key("formal-t"), "formal time argument is `t`", f"the formal time argument is {_avg.show(entg.get('t')) if entg.get('t') else None}", pa.where())
+
+
+def front_end(ctx: Ctx, R: dict, declare: bool = True):
+    """The front end every backend shares: operator table, fold direction, precedence ladder, function vocabulary,
+    conditional builders.  R maps 'a'..'e' to the rule ids the obligations are recorded under (C02 / C03 record them
+    under one rule of their own: their statements are about the values *the model text defines*)."""
+    sm = ctx.sm
+    G = grammar(ctx)
+
+    def decl(rid, text, floor=0):
+        if declare:
+            ctx.rule(rid, text, floor=floor)
+
+    # ---- R01.a operator table ------------------------------------------------------------------
+    decl(R["a"], "operator table: for each operator literal the grammar can produce, binary_op / unary_op return the term the language defines (a-b = a+(-1)b, a/b = a*b**-1, unary minus = (-1)a) or raise", floor=9)
+    add_ops, mul_ops, un_ops = G.rule_literals("_add_op"), G.rule_literals("_mul_op"), G.rule_literals("_unary_op")
+    pow_ops = [l for l in G.rule_literals("power")]
+    op_table(ctx, R["a"], "binary_op", BIN_REF, add_ops + mul_ops + pow_ops)
+    op_table(ctx, R["a"], "unary_op", UN_REF, un_ops)
+    util.same_as_reference(ctx, R["a"], "expressions.py", "relational_to_piecewise", REF_REL2PW, "indicator", "a relational used as a number is Piecewise((1, rel), (0, True))", "relational_to_piecewise no longer maps a relational operand to Piecewise((1, rel), (0, True)) and everything else to itself")
+
+    # ---- R01.b fold direction ----------------------------------------------------------------------
+    decl(R["b"], "tree folding: expression/term fold left-to-right with the accumulator as first operand; factor applies the sign to its operand; power is base ** exponent", floor=4)
+    from sa import av as _avb
+
+    e2 = sm.func("expressions.py", "build_expression.expr2symbols")
+    cur_v = util.value_of(ctx, e2)
+    ref_v = util.reference_value(ctx, "expressions.py", "build_expression.expr2symbols", REF_EXPR2SYMBOLS)
+    kt = ("sym", f"{e2.params[0]}.data")
+    cur_cases, ref_cases = util.dispatch_cases(cur_v, kt), util.dispatch_cases(ref_v, kt)
+
+    def case_rule(rule_, kind, key_, ok_msg, fail_msg):
+        c_, r_ = cur_cases.get(kind, cur_cases[None]), ref_cases[kind]
+        vd_ = util.verdict(c_, [r_])
+        if vd_ == "unknown":
+            ctx.undecided(rule_, e2.key(key_), f"what expr2symbols builds for `{kind}` nodes is not understood ({(_avb.find_all(c_, 'unk') or [('', '?')])[0][1]})", e2.where())
+        else:
+            ctx.check(vd_ == "ok", rule_, e2.key(key_), ok_msg, f"{fail_msg} (it builds {_avb.show(c_)[:200]})", e2.where())
+        return c_
+
+    for kind_ in ("expression", "term"):
+        case_rule(R["b"], kind_, "fold" if kind_ == "expression" else "fold-term", "acc = binary_op(op_i, acc, operand_{i+1}) for i = 1, 3, 5, ...", f"expr2symbols: `{kind_}` children are not folded left-to-right as binary_op(children[i], accumulator, children[i+1]) (associativity or operand order of - and / would change)")
+    case_rule(R["b"], "factor", "factor", "unary_op(sign, operand)", "expr2symbols: factor is not unary_op(children[0], expr2symbols(children[1]))")
+    case_rule(R["b"], "power", "power", "binary_op('**', base, exponent)", "expr2symbols: power is not binary_op('**', children[0], children[1]) (base and exponent swapped?)")
+    other = cur_cases[None]
+    ctx.check(other == ("raise", "InvalidTreeError") or (_avb.has_unk(other) and False), R["b"], e2.key("unknown-tree"), "unknown tree kinds raise InvalidTreeError", f"expr2symbols does not raise InvalidTreeError for unknown tree kinds (it gives {_avb.show(other)[:80]})", e2.where())
+
+    # ---- R01.c precedence ladder -------------------------------------------------------------------
+    decl(R["c"], "precedence ladder of ode.lark: additive below multiplicative below unary below **, ** binds its signed right operand (right associative), parentheses restart at expression; leaf rules are not inlined", floor=14)
+    for name, want in LADDER.items():
+        got = G.shape(name)
+        ctx.check(got == want, R["c"], f"src/gotranx/ode.lark::{name}", got, f"grammar rule `{name}` is `{got}`; the vetted precedence ladder has `{want}` (precedence / associativity / tree shape seen by build_expression changed)", "src/gotranx/ode.lark")
+
+    TERMS = {
+        "SCIENTIFIC_NUMBER": G.terms.get("SCIENTIFIC_NUMBER", {}).get("shape", ""),
+        "SIGN": '("+" | "-")',
+        "PI": '"pi"',
+    }
+    sn = TERMS["SCIENTIFIC_NUMBER"]
+    number = G.terms.get("NUMBER", {}).get("shape", "")
+    ok_sn = bool(number) and sn == f'{number} (("E" | "e") (("+" | "-"))? {number})?'
+    ctx.check(ok_sn, R["c"], "src/gotranx/ode.lark::SCIENTIFIC_NUMBER", "NUMBER ((E|e) SIGN? NUMBER)?  (unsigned: a leading sign is an operator)", f"terminal SCIENTIFIC_NUMBER is `{sn[:120]}`; it must be an unsigned NUMBER with an optional exponent - a sign glued into the literal changes the meaning of -2**2 and x**-2**2", "src/gotranx/ode.lark")
+    for tn in ("SIGN", "PI"):
+        got = G.terms.get(tn, {}).get("shape")
+        ctx.check(got == TERMS[tn], R["c"], f"src/gotranx/ode.lark::{tn}", f"{tn}: {got}", f"terminal {tn} is `{got}`, vetted `{TERMS[tn]}`", "src/gotranx/ode.lark")
+
+    # ---- R01.d function vocabulary ----------------------------------------------------------------------
+    decl(R["d"], "function vocabulary: every funcname / logicalfuncname of the grammar is bound to the sympy object with the documented meaning; Conditional / ContinuousConditional bind their children to cond, true, false (, sigma)", floor=26)
+    sympy = importlib.import_module("sympy")
+    funcs = G.literals_of("funcname")
+    func_v = case_rule(R["d"], "func", "func-apply", "getattr(sp, name)(*all arguments), abs -> Abs", "expr2symbols: a function call is not built as getattr(sp, funcname)(*[every argument]) with abs mapped to Abs")
+    abs_map = "'Abs' if" in _avb.show(func_v) and "== 'abs'" in _avb.show(func_v)
+    for lit in funcs:
+        key = f"src/gotranx/ode.lark::funcname::{lit}"
+        if lit not in FUNC_MEANING:
+            ctx.fail(R["d"], key, f"grammar function `{lit}` has no vetted meaning", "src/gotranx/ode.lark")
+            continue
+        attr, obj = FUNC_MEANING[lit]
+        looked = "Abs" if (lit == "abs" and abs_map) else lit
+        ok = looked == attr and getattr(sympy, looked, None) is getattr(sympy, obj)
+        ctx.check(ok, R["d"], key, f"{lit} -> sympy.{obj}", f"grammar function `{lit}` is looked up as sympy.{looked}, which is not sympy.{obj}", "src/gotranx/ode.lark")
+    missing = [k for k in FUNC_MEANING if k not in funcs]
+    ctx.check(not missing, R["d"], "src/gotranx/ode.lark::funcname::complete", "all documented functions are in the grammar", f"documented functions missing from the grammar: {missing}", "src/gotranx/ode.lark")
+    logical = G.literals_of("logicalfuncname")
+    for lit in logical:
+        key = f"src/gotranx/ode.lark::logicalfuncname::{lit}"
+        if lit in ("Conditional", "ContinuousConditional"):
+            continue
+        want = LOGICAL_MEANING.get(lit)
+        ok = want is not None and getattr(sympy, lit, None) is getattr(sympy, want)
+        ctx.check(ok, R["d"], key, f"{lit} -> sympy.{want}", f"grammar function `{lit}` resolves to sympy.{lit}, which is not sympy.{want}", "src/gotranx/ode.lark")
+    ctx.check(set(LOGICAL_MEANING) | {"Conditional", "ContinuousConditional"} == set(logical), R["d"], "src/gotranx/ode.lark::logicalfuncname::complete", "logical vocabulary as documented", f"logical function names {sorted(logical)} differ from the documented set", "src/gotranx/ode.lark")
+    lk = ("sub", ("sym", f"{e2.params[0]}.children"), _avb.C(0))
+    cur_l = util.dispatch_cases(cur_cases.get("logicalfunc", cur_cases[None]), lk)
+    ref_l = util.dispatch_cases(ref_cases["logicalfunc"], lk)
+    for nm_, key_, okm_, badm_ in (
+        (None, "logical-apply", "getattr(sp, name)(*all arguments)", "expr2symbols: a logical function is not built as getattr(sp, name)(*[every argument]) (operands of And/Or could be dropped)"),
+        ("Conditional", "Conditional", "Conditional(cond, true, false) <- children 1, 2, 3", "expr2symbols: Conditional does not bind children 1, 2, 3 to cond, true_value, false_value"),
+        ("ContinuousConditional", "ContinuousConditional", "ContinuousConditional(rel(arg1, arg2), true, false, sigma) <- children 1..4", "expr2symbols: ContinuousConditional does not bind rel(arg1, arg2), children 2, 3, 4 to cond, true_value, false_value, sigma"),
+    ):
+        c_, r_ = cur_l.get(nm_, cur_l[None]), ref_l.get(nm_, ref_l[None])
+        vd_ = util.verdict(c_, [r_])
+        if vd_ == "unknown":
+            ctx.undecided(R["d"], e2.key(key_), f"what expr2symbols builds for {nm_ or 'other logical functions'} is not understood", e2.where())
+        else:
+            ctx.check(vd_ == "ok", R["d"], e2.key(key_), okm_, f"{badm_} (it builds {_avb.show(c_)[:200]})", e2.where())
+    pi_v = cur_cases.get("constant", cur_cases[None])
+    vd_ = util.verdict(pi_v, [ref_cases["constant"]])
+    if vd_ == "unknown":
+        ctx.undecided(R["d"], e2.key("pi"), "what expr2symbols builds for constants is not understood", e2.where())
+    else:
+        ctx.check(vd_ == "ok" and G.terms["PI"]["shape"] == '"pi"', R["d"], e2.key("pi"), "`pi` (exactly) is the constant", f"the constant pi is recognised as {G.terms['PI']['shape']} / built as {_avb.show(pi_v)[:100]}: identifiers such as Pi or PI could become the constant, or pi another value", e2.where())
+    case_rule(R["d"], "scientific", "number", "numbers are sympified literally", "expr2symbols: a number literal is not sp.sympify(token)")
+    case_rule(R["d"], "variable", "variable", "a name is looked up in the model's symbol table", "expr2symbols: a variable is not symbols_[its name]")
+
+    # ---- R01.e conditional builders --------------------------------------------------------------------
+    decl(R["e"], "Conditional -> Piecewise((true, cond), (false, True)); ContinuousConditional -> sigmoid blend with the weights on the right sides", floor=4)
+    from sa import av as _ave
+
+    from . import util as _ue
+    from .c03 import _branches as _br
+
+    cf = sm.func("sympytools.py", "Conditional")
+    cv = _ue.value_of(ctx, cf)
+    if _ave.has_unk(cv):
+        ctx.undecided(R["e"], cf.key("piecewise"), f"what Conditional returns is not understood ({_ave.find_all(cv, 'unk')[0][1]})", cf.where())
+    else:
+        pc, tv, fv = cf.params[0], cf.params[1], cf.params[2]
+        condv = {("sym", pc), ("call", "sympy.sympify", (("sym", pc),), ())}
+        pws = [c for c in _ave.find_all(cv, "call") if c[1] == "sympy.Piecewise"]
+        okpw = False
+        got = None
+        if pws:
+            c = pws[0]
+            got = _ave.show(c)
+            pairs = c[2]
+            okpw = len(pairs) == 2 and pairs[0][0] == "list" and pairs[1][0] == "list" and len(pairs[0][1]) == 2 and len(pairs[1][1]) == 2 and pairs[0][1][0] == ("sym", tv) and pairs[0][1][1] in condv and pairs[1][1][0] == ("sym", fv) and pairs[1][1][1] in (("sym", "sympy.true"), _ave.C(True))
+        ctx.check(okpw, R["e"], cf.key("piecewise"), "Piecewise((true_value, cond), (false_value, True))", f"sympytools.Conditional returns {got}, not Piecewise((true_value, cond), (false_value, True))", cf.where())
+        leaves = _br(cv)
+        direct = [(c, x) for c, x in leaves if x in (("sym", tv), ("sym", fv))]
+        oks = len(direct) == 2
+        for c, x in direct:
+            is_bool = any("BooleanFalse" in _ave.show(k) and "BooleanTrue" in _ave.show(k) and k[0] != "not" for k in c)
+            sel = [k for k in c if k in condv or (k[0] == "not" and k[1] in condv)]
+            oks = oks and is_bool and len(sel) == 1 and ((sel[0][0] != "not") == (x == ("sym", tv)))
+        ctx.check(oks or not direct, R["e"], cf.key("evaluated-condition"), "an already evaluated condition selects its branch", "sympytools.Conditional: the shortcut for an evaluated boolean condition is not `true_value if cond else false_value`", cf.where())
+    ccf = sm.func("sympytools.py", "ContinuousConditional")
+    ccv = _ue.value_of(ctx, ccf)
+    H_ref = te.parse_term("1 / (1 + exp((LHS - RHS) / sigma))", funcs={"exp": lambda e, c: ("fn", "exp", (e.ev(c.args[0]),))})
+    if _ave.has_unk(ccv):
+        ctx.undecided(R["e"], ccf.key("weights"), f"what ContinuousConditional returns is not understood ({_ave.find_all(ccv, 'unk')[0][1]})", ccf.where())
+    else:
+        pc = ccf.params[0]
+        repl = {f"sympy.sympify({pc})": pc, f"{pc}.args[0]": "LHS", f"{pc}.args[1]": "RHS", f"{pc}.lhs": "LHS", f"{pc}.rhs": "RHS"}
+        atoms_ = None
+        want_gt = te.parse_term("true_value * (1 - H) + false_value * H", env={"H": H_ref})
+        want_lt = te.parse_term("true_value * H + false_value * (1 - H)", env={"H": H_ref})
+        leaves = [(c, x) for c, x in _br(ccv) if x[0] not in ("raise",) and x != _ave.NONE]
+        okw = len(leaves) == 2
+        seen_gt = seen_lt = False
+        okh = True
+        for c, x in leaves:
+            ctxt = " and ".join(_ave.show(k) for k in c).replace(f"sympy.sympify({pc})", pc)
+            try:
+                term = _ue.av_term(x, atoms=atoms_, repl=repl)
+            except Exception:
+                okw = False
+                continue
+            is_gt = f"('>' in {pc}.rel_op)" in ctxt and f"not ('>' in {pc}.rel_op)" not in ctxt
+            if term == (want_gt if is_gt else want_lt):
+                seen_gt, seen_lt = seen_gt or is_gt, seen_lt or not is_gt
+            else:
+                okw = False
+                if term == (want_lt if is_gt else want_gt):
+                    okh = True  # the sigmoid is right, the sides are swapped
+                else:
+                    okh = False
+        ctx.check(okh, R["e"], ccf.key("H"), "H = 1 / (1 + exp((lhs - rhs) / sigma))", "ContinuousConditional: the blend is not built from H = 1 / (1 + exp((lhs - rhs) / sigma))", ccf.where())
+        ctx.check(okw and seen_gt and seen_lt, R["e"], ccf.key("weights"), "'>' relations: true*(1-H) + false*H; otherwise true*H + false*(1-H)", "ContinuousConditional: the branch test is not `'>' in cond.rel_op` or the sigmoid weights are on the wrong sides (the blend tends to the wrong value on each side of the threshold)", ccf.where())
+
